@@ -5,7 +5,14 @@
 //!   results == whole; a repeated application to a fresh copy after an arbitrary history
 //!   of other applications on the same handle == first application; a fresh context gives
 //!   the same; count(whole) == sum of counts of the parts for elementary operators;
-//!   the same tuples through every supported container == Vec<Coor4D> in the stored dims.
+//!   the same tuples through every supported container == Vec<Coor4D> in the stored dims;
+//!   absolute for histories made of OTHER operators: every member of a family of confusable
+//!   operators (same definition on an ellipsoid sharing rf or a, one numeric parameter changed,
+//!   `inv` toggled, twin, another operator kind on a related ellipsoid, a pipeline of two of
+//!   them), instantiated and applied in every order of pairs on ONE thread == the same member
+//!   applied alone, in a context of its own, on a freshly spawned thread (sections
+//!   sibling-history, random, and sibling-ellipsoid-table, exhaustive over the groups of equal
+//!   rf / equal a of the built-in ellipsoid table x every operator kind taking an ellipsoid).
 //! Generated: operator catalogue (all built-ins, valid parameters), type-correct pipelines,
 //! stack programs, grid operators on generated Gravsoft grids (GridCtx), heterogeneous
 //! coordinate sets (mixed epochs, NaN members, out-of-domain members, duplicates, empty).
@@ -2064,6 +2071,683 @@ fn big_strategy(hk: bool, lo: u32, hi: u32) -> BS<BigCase> {
         .boxed()
 }
 
+// ---- confusable siblings on one thread ---------------------------------------------------------
+//
+// "The result computed for a coordinate tuple depends only on the operator and on that tuple ...
+// repeated any number of times on fresh copies (operators are immutable after creation)" for
+// histories that contain applications (and instantiations) of OTHER operators between two
+// applications of the operator under test. The other operators are chosen to be confusable with
+// it: the same definition on an ellipsoid sharing rf (or a) with its ellipsoid, the same definition
+// with one numeric parameter changed, with `inv` toggled, an identical twin, another operator kind
+// on the same / a related ellipsoid, and a pipeline made of the operator and a sibling.
+// Reference: every member of such a family applied ALONE, in a context of its own, on a freshly
+// spawned thread (anything remembered per thread, per process or per context is empty or filled by
+// the operator itself there). On the test thread (a worker thread with an arbitrary history of
+// earlier cases) the members are instantiated and applied in every order of pairs; every single
+// result must equal the member's own reference bit for bit, and so must the success count.
+
+/// operators that take an ellipsoid
+const ELLPS_OPS: [&str; 19] = [
+    "tmerc", "btmerc", "utm", "butm", "merc", "webmerc", "lcc", "laea", "omerc", "somerc", "cart", "molodensky", "permtide", "latitude", "curvature", "gravity", "geodesic", "deflection", "deformation",
+];
+
+/// operator kinds that plausibly share helper code: 0 transverse mercator / meridian arc, 1 conformal
+/// latitude, 2 authalic, 3 any auxiliary latitude (wild card), 4 ellipsoid geometry
+fn helper_group(name: &str) -> u8 {
+    match name {
+        "tmerc" | "btmerc" | "utm" | "butm" | "deflection" => 0,
+        "merc" | "webmerc" | "lcc" | "somerc" | "omerc" => 1,
+        "laea" => 2,
+        "latitude" => 3,
+        "cart" | "molodensky" | "deformation" | "geodesic" | "curvature" | "gravity" | "permtide" => 4,
+        _ => 9,
+    }
+}
+
+/// one line of the library's built-in ellipsoid table
+#[derive(Clone, Debug)]
+struct Ell {
+    name: String,
+    a_txt: String,
+    rf_txt: String,
+    a: f64,
+    rf: f64,
+}
+
+/// an ellipsoid as spelled in a definition: a built-in name or "a,rf"
+#[derive(Clone, Debug)]
+struct Es {
+    text: String,
+    a_txt: String,
+    rf_txt: String,
+    a: f64,
+    rf: f64,
+}
+
+fn ell_table() -> Vec<Ell> {
+    geodesy::verif_hooks::ellipsoid_table()
+        .into_iter()
+        .filter_map(|(name, a, _, rf, _)| Some(Ell { name: name.to_string(), a_txt: a.trim().to_string(), rf_txt: rf.trim().to_string(), a: a.trim().parse().ok()?, rf: rf.trim().parse().ok()? }))
+        .collect()
+}
+
+fn spelled(e: &Ell, as_pair: bool) -> Es {
+    // "a,0" would mean an infinite flattening: spheres only by name
+    let text = if as_pair && e.rf != 0.0 { format!("{},{}", e.a_txt, e.rf_txt) } else { e.name.clone() };
+    Es { text, a_txt: e.a_txt.clone(), rf_txt: e.rf_txt.clone(), a: e.a, rf: e.rf }
+}
+
+fn ell_relation(b: &Es, s: &Es) -> &'static str {
+    match (b.a.to_bits() == s.a.to_bits(), b.rf.to_bits() == s.rf.to_bits()) {
+        (true, true) => "same-ellipsoid",
+        (false, true) => "same-rf-other-a",
+        (true, false) => "same-a-other-rf",
+        _ => "unrelated-ellipsoid",
+    }
+}
+
+/// A sibling of ellipsoid `b`. rel: 0 same rf / other a from the table, 1 same rf / other a spelled
+/// "a',rf", 2 same a / other rf from the table, 3 same a / other rf spelled "a,rf'", 4 the same
+/// ellipsoid spelled differently (or an alias in the table), 5 any ellipsoid of the table
+fn sibling_ell(tab: &[Ell], b: &Es, rel: u8, k: u16, as_pair: bool) -> Es {
+    let same = |x: f64, y: f64| x.to_bits() == y.to_bits();
+    match rel {
+        0 | 1 => {
+            let c: Vec<&Ell> = tab.iter().filter(|e| same(e.rf, b.rf) && !same(e.a, b.a)).collect();
+            if (rel == 0 || b.rf == 0.0) && !c.is_empty() {
+                return spelled(c[pick(k, c.len())], as_pair);
+            }
+            if b.rf == 0.0 {
+                return sibling_ell(tab, b, 5, k, as_pair);
+            }
+            let opts = [b.a + 1.0, b.a * 1.25, b.a * 0.75, if b.a == 6378137.0 { 6378388.0 } else { 6378137.0 }, if b.a == 1.0 { 6370997.0 } else { 1.0 }, 2.0 * b.a];
+            let a = opts[pick(k, opts.len())];
+            Es { text: format!("{a},{}", b.rf_txt), a_txt: format!("{a}"), rf_txt: b.rf_txt.clone(), a, rf: b.rf }
+        }
+        2 | 3 => {
+            let c: Vec<&Ell> = tab.iter().filter(|e| same(e.a, b.a) && !same(e.rf, b.rf)).collect();
+            if rel == 2 && !c.is_empty() {
+                return spelled(c[pick(k, c.len())], as_pair);
+            }
+            let opts = if b.rf == 0.0 { [298.3, 297.0, 300.8017, 150.0, 299.1528128] } else { [b.rf + 0.001, b.rf + 1.0, if b.rf == 297.0 { 298.3 } else { 297.0 }, if b.rf == 300.8017 { 299.0 } else { 300.8017 }, 150.0] };
+            let rf = opts[pick(k, opts.len())];
+            Es { text: format!("{},{rf}", b.a_txt), a_txt: b.a_txt.clone(), rf_txt: format!("{rf}"), a: b.a, rf }
+        }
+        4 => {
+            let alias: Vec<&Ell> = tab.iter().filter(|e| same(e.a, b.a) && same(e.rf, b.rf) && e.name != b.text).collect();
+            if b.rf != 0.0 && (k % 2 == 0 || alias.is_empty()) && !b.text.contains(',') {
+                return Es { text: format!("{},{}", b.a_txt, b.rf_txt), ..b.clone() };
+            }
+            if alias.is_empty() {
+                return b.clone();
+            }
+            spelled(alias[pick(k, alias.len())], false)
+        }
+        _ => spelled(&tab[pick(k, tab.len())], as_pair),
+    }
+}
+
+/// (definition without a trailing `inv`, was there one?)
+fn strip_inv(text: &str) -> (String, bool) {
+    match text.strip_suffix(" inv") {
+        Some(t) => (t.to_string(), true),
+        None => (text.to_string(), false),
+    }
+}
+
+/// the same step with `inv` toggled
+fn flip(s: &Step) -> Step {
+    let mut s = s.clone();
+    let (body, inv) = strip_inv(&s.text);
+    s.text = if inv { body } else { format!("{body} inv") };
+    std::mem::swap(&mut s.inn, &mut s.out);
+    s
+}
+
+/// the same step on another ellipsoid (molodensky with two ellipsoids: the first one is replaced)
+fn set_ellps(s: &Step, e: &Es) -> Step {
+    let mut s = s.clone();
+    if !ELLPS_OPS.contains(&s.name.as_str()) {
+        return s;
+    }
+    let (body, inv) = strip_inv(&s.text);
+    let two = body.split_whitespace().any(|t| t.starts_with("ellps_0="));
+    let mut toks: Vec<String> = vec![];
+    for t in body.split_whitespace() {
+        if two && t.starts_with("ellps_0=") {
+            toks.push(format!("ellps_0={}", e.text));
+        } else if !t.starts_with("ellps=") {
+            toks.push(t.to_string());
+        }
+    }
+    if !two {
+        toks.push(format!("ellps={}", e.text));
+    }
+    s.text = toks.join(" ");
+    if inv {
+        s.text.push_str(" inv");
+    }
+    s
+}
+
+/// the same step with one element of one numeric parameter changed; None if it has none
+fn mutate_numeric(s: &Step, which: u16, how: u8) -> Option<(Step, String)> {
+    let (body, inv) = strip_inv(&s.text);
+    let mut toks: Vec<String> = body.split_whitespace().map(|t| t.to_string()).collect();
+    let cand: Vec<usize> = (1..toks.len())
+        .filter(|&i| match toks[i].split_once('=') {
+            Some((k, v)) => !k.starts_with("ellps") && k != "grids" && !v.is_empty() && v.split(',').all(|x| x.parse::<f64>().map(|x| x.is_finite()).unwrap_or(false)),
+            None => false,
+        })
+        .collect();
+    if cand.is_empty() {
+        return None;
+    }
+    let i = cand[pick(which, cand.len())];
+    let (k, v) = toks[i].split_once('=').map(|(k, v)| (k.to_string(), v.to_string()))?;
+    let mut parts: Vec<String> = v.split(',').map(|x| x.to_string()).collect();
+    let j = (which as usize / 7) % parts.len();
+    let x: f64 = parts[j].parse().ok()?;
+    let y = match how % 4 {
+        0 => x + 1.0,
+        1 => x - 1.0,
+        2 => x + 0.25,
+        _ => {
+            if x == 0.0 {
+                0.001
+            } else {
+                x * 1.001
+            }
+        }
+    };
+    parts[j] = format!("{y}");
+    toks[i] = format!("{k}={}", parts.join(","));
+    let mut s = s.clone();
+    s.text = toks.join(" ");
+    if inv {
+        s.text.push_str(" inv");
+    }
+    Some((s, k))
+}
+
+/// the catalogue restricted to what accepts a start kind of its own (no stack blocks)
+fn param_steps(la: i32, lo: i32, hk: bool) -> Vec<(u32, BS<Step>)> {
+    let mut v = georad_steps(la, lo, 0b1111, false);
+    v.extend(geodeg_steps(0b1111, true, false));
+    v.extend(cart_steps(hk, false, 0b1111, true));
+    let s = (any::<bool>(), ellps())
+        .prop_map(|(rev, e)| Step::new(format!("geodesic{}{e}", if rev { " reversible" } else { "" }), "geodesic", GeodFwd, GeodInv, 0b1111, true))
+        .boxed();
+    v.push((4, s));
+    v
+}
+
+#[derive(Clone, Debug, Serialize, Deserialize)]
+struct Member {
+    op: OpSpec,
+    fwd: bool,
+    pts: Vec<P4>,
+    rel: String, // relation to the operator under test (member 0)
+}
+
+#[derive(Clone, Debug, Serialize, Deserialize)]
+struct SibCase {
+    ctx: u8,
+    shared_ctx: bool, // all members in one context, or one context each
+    inst_rev: bool,   // instantiate the siblings before the operator under test
+    members: Vec<Member>,
+    extra: Vec<(u8, u16)>,
+}
+
+struct PtSrc<'a> {
+    raw: &'a [RawPt],
+    epochs: &'a [F],
+    span: f64,
+    hk: bool,
+}
+
+fn member_of(steps: Vec<Step>, la: i32, lo: i32, fwd: bool, src: &PtSrc, rel: String) -> Member {
+    let start = if steps[0].neutral { GeoRad } else { steps[0].inn };
+    let fwd = fwd || !steps.iter().all(|s| s.invertible);
+    let mut spec = spec_from_steps(steps, la, lo, start, None);
+    if spec.out_kind == Any && spec.in_kind != Any && spec.wmask == 0 {
+        spec.out_kind = spec.in_kind;
+    }
+    let d = dom_for(&spec, fwd, src.span, src.hk);
+    let pts = build_pts(src.raw, &d, src.epochs);
+    Member { op: spec, fwd, pts, rel }
+}
+
+#[derive(Clone, Debug)]
+struct Recipe {
+    kind: u8,
+    erel: u8,
+    k: u16,
+    how: u8,
+    c1: Step,
+    c2: Step,
+    fwd: Option<bool>,
+    as_pair: bool,
+}
+
+/// one sibling of the (un-inverted or inverted) step `t` on ellipsoid `b`
+fn sibling_step(tab: &[Ell], t: &Step, b: &Es, r: &Recipe) -> (Step, String) {
+    let has_ellps = ELLPS_OPS.contains(&t.name.as_str());
+    let e = sibling_ell(tab, b, r.erel, r.k, r.as_pair);
+    let erel = ell_relation(b, &e);
+    let other = |on: &Es, label: &str| {
+        let g = helper_group(&t.name);
+        let fits = |c: &Step| helper_group(&c.name) == g || helper_group(&c.name) == 3 || g == 3;
+        let c = if fits(&r.c1) || !fits(&r.c2) { &r.c1 } else { &r.c2 };
+        let c = set_ellps(c, on);
+        let rel = format!("other-op/{}", if ELLPS_OPS.contains(&c.name.as_str()) { label } else { "no-ellipsoid" });
+        (c, rel)
+    };
+    match r.kind {
+        0..=2 if has_ellps => (set_ellps(t, &e), format!("same-def/{erel}")),
+        0..=4 => match mutate_numeric(t, r.k, r.how) {
+            Some((s, _)) => (s, "same-def/one-numeric-parameter-changed".to_string()),
+            None if has_ellps => (set_ellps(t, &e), format!("same-def/{erel}")),
+            None => other(b, "same-ellipsoid"),
+        },
+        5 if t.invertible => (flip(t), "inv-toggled/same-ellipsoid".to_string()),
+        6 if t.invertible && has_ellps => (flip(&set_ellps(t, &e)), format!("inv-toggled/{erel}")),
+        5..=7 => other(b, "same-ellipsoid"),
+        8 => other(&e, erel),
+        _ => (t.clone(), "identical-twin".to_string()),
+    }
+}
+
+fn sib_strategy(hk: bool) -> BS<SibCase> {
+    let tab = std::sync::Arc::new(ell_table());
+    // table members that have a partner with the same rf or the same a
+    let grouped: Vec<usize> = (0..tab.len()).filter(|&i| tab.iter().enumerate().any(|(j, e)| j != i && (e.rf.to_bits() == tab[i].rf.to_bits() || e.a.to_bits() == tab[i].a.to_bits()))).collect();
+    let n = tab.len();
+    region()
+        .prop_flat_map(move |(la, lo)| {
+            let tab = tab.clone();
+            let ops = union(param_steps(la, lo, hk));
+            let recipe = (0u8..10, 0u8..6, any::<u16>(), 0u8..4, ops.clone(), ops.clone(), prop::option::weighted(0.35, any::<bool>()), prop::bool::weighted(0.2))
+                .prop_map(|(kind, erel, k, how, c1, c2, fwd, as_pair)| Recipe { kind, erel, k, how, c1, c2, fwd, as_pair });
+            (
+                (ops, prop::bool::weighted(0.3), prop::bool::weighted(0.7)),
+                (prop_oneof![2 => sel(&grouped), 1 => 0..n], prop::bool::weighted(0.2)),
+                prop::collection::vec(recipe, 1..=3),
+                prop::bool::weighted(0.3),
+                (prop::collection::vec(raw_pt(), 1..=8), epoch_pool(), spans()),
+                (0u8..3, any::<bool>(), any::<bool>()),
+                prop::collection::vec((0u8..5, any::<u16>()), 0..=4),
+            )
+                .prop_map(move |((t0, tinv, tfwd), (bi, bpair), recipes, with_pipeline, (raw, epochs, span), (ctx, shared_ctx, inst_rev), extra)| {
+                    let src = PtSrc { raw: &raw, epochs: &epochs, span, hk };
+                    let b = spelled(&tab[bi], bpair);
+                    // an operator without any parameter (adapt, dm, dms) is of little use as the one under test
+                    let with_parameters = |s: &Step| ELLPS_OPS.contains(&s.name.as_str()) || s.name == "helmert";
+                    let t0 = if !with_parameters(&t0) && with_parameters(&recipes[0].c1) { recipes[0].c1.clone() } else { t0 };
+                    let mut t = set_ellps(&t0, &b);
+                    if tinv && t.invertible && !t.text.ends_with(" inv") {
+                        t = flip(&t);
+                    }
+                    let mut members = vec![member_of(vec![t.clone()], la, lo, tfwd, &src, "under-test".to_string())];
+                    let tfwd = members[0].fwd;
+                    let mut pipe: Option<Member> = None;
+                    for r in &recipes {
+                        let (s, rel) = sibling_step(&tab, &t, &b, r);
+                        if with_pipeline && pipe.is_none() && !t.neutral && !s.neutral && t.invertible && s.invertible && s.inn == t.inn && s.out == t.out {
+                            // there and back through two confusable steps inside ONE operator
+                            pipe = Some(member_of(vec![t.clone(), flip(&s)], la, lo, true, &src, format!("pipeline-with/{rel}")));
+                        }
+                        members.push(member_of(vec![s], la, lo, r.fwd.unwrap_or(tfwd), &src, rel));
+                    }
+                    members.extend(pipe);
+                    SibCase { ctx, shared_ctx, inst_rev, members, extra }
+                })
+        })
+        .boxed()
+}
+
+enum AnyCtx {
+    M(Minimal),
+    P(Plain),
+    G(GridCtx),
+}
+
+#[derive(Clone)]
+enum Outcome {
+    Done(usize, Vec<Coor4D>),
+    Failed(String),
+}
+
+impl AnyCtx {
+    /// a context that can serve the grids of all `specs`
+    fn serving(specs: &[&OpSpec], kind: u8) -> Result<AnyCtx, String> {
+        if specs.iter().all(|s| s.grids.is_empty()) {
+            return Ok(match kind % 3 {
+                0 => AnyCtx::M(Minimal::new()),
+                1 => AnyCtx::P(Plain::new()),
+                _ => AnyCtx::G(GridCtx::new()),
+            });
+        }
+        let mut ctx = GridCtx::new();
+        for spec in specs {
+            for g in &spec.grids {
+                let bytes = g.bytes(spec.la, spec.lo)?;
+                ctx.add_grid_bytes(&g.name, &bytes).map_err(|e| format!("grid {} rejected: {e:?}", g.name))?;
+            }
+        }
+        Ok(AnyCtx::G(ctx))
+    }
+    fn inst(&mut self, spec: &OpSpec) -> Result<Option<OpHandle>, Failure> {
+        match self {
+            AnyCtx::M(c) => instantiate(c, spec),
+            AnyCtx::P(c) => instantiate(c, spec),
+            AnyCtx::G(c) => instantiate(c, spec),
+        }
+    }
+    /// an error returned by apply is an outcome here (it must not depend on the history either)
+    fn run(&self, h: OpHandle, fwd: bool, input: &[Coor4D], spec: &OpSpec, what: &str) -> Result<Outcome, Failure> {
+        let mut data = input.to_vec();
+        let r = match self {
+            AnyCtx::M(c) => try_apply(c, h, dir_of(fwd), &mut data),
+            AnyCtx::P(c) => try_apply(c, h, dir_of(fwd), &mut data),
+            AnyCtx::G(c) => try_apply(c, h, dir_of(fwd), &mut data),
+        };
+        match r {
+            Err(p) => vfail!(format!("panic-apply@{}", p.sig()), "applying '{}' ({}) [{what}] panics: {} at {}:{}", spec.def, dirname(fwd), p.msg, p.file, p.line),
+            Ok(Err(e)) => Ok(Outcome::Failed(format!("{e:?}"))),
+            Ok(Ok(c)) => Ok(Outcome::Done(c, data)),
+        }
+    }
+}
+
+/// the member applied alone, in a context of its own, on a freshly spawned thread.
+/// Ok(None): definition (or grid) rejected
+fn alone_on_a_fresh_thread(m: &Member, ctxkind: u8) -> Result<Option<Outcome>, Failure> {
+    let joined = std::thread::scope(|s| {
+        s.spawn(|| -> Result<Option<Outcome>, Failure> {
+            let Ok(mut ctx) = AnyCtx::serving(&[&m.op], ctxkind) else { return Ok(None) };
+            let Some(h) = ctx.inst(&m.op)? else { return Ok(None) };
+            Ok(Some(ctx.run(h, m.fwd, &c4s(&m.pts), &m.op, "alone on a fresh thread")?))
+        })
+        .join()
+    });
+    match joined {
+        Ok(r) => r,
+        Err(_) => vfail!("harness-thread", "the reference thread for '{}' died", m.op.def),
+    }
+}
+
+/// Everything that happens on the one thread under test (freshly spawned as well, so that the
+/// verdict is a function of the case alone and not of what the worker thread did for earlier cases).
+/// Returns the number of applications compared with their reference.
+fn history_on_one_thread(case: &SibCase, members: &[&Member], refs: &[Outcome]) -> Result<u64, Failure> {
+    let k = members.len();
+    // the same operators on ONE thread: one context for all, or one each
+    let mut ctxs: Vec<AnyCtx> = vec![];
+    if case.shared_ctx {
+        let specs: Vec<&OpSpec> = members.iter().map(|m| &m.op).collect();
+        match AnyCtx::serving(&specs, case.ctx) {
+            Ok(c) => ctxs.push(c),
+            Err(_) => return Ok(0),
+        }
+    } else {
+        for (i, m) in members.iter().enumerate() {
+            match AnyCtx::serving(&[&m.op], case.ctx.wrapping_add(2 * i as u8)) {
+                Ok(c) => ctxs.push(c),
+                Err(_) => return Ok(0),
+            }
+        }
+    }
+    let ci = |i: usize| if case.shared_ctx { 0 } else { i };
+    let mut handles: Vec<Option<OpHandle>> = vec![None; k];
+    let order: Vec<usize> = if case.inst_rev { (0..k).rev().collect() } else { (0..k).collect() };
+    for &i in &order {
+        handles[i] = ctxs[ci(i)].inst(&members[i].op)?;
+        vensure!(handles[i].is_some(), format!("sibling-history-instantiation@{}", members[i].op.sig), "'{}' is accepted alone on a fresh thread but rejected after other operators were instantiated on this thread", members[i].op.def);
+    }
+    let handles: Vec<OpHandle> = handles.into_iter().flatten().collect();
+    let inputs: Vec<Vec<Coor4D>> = members.iter().map(|m| c4s(&m.pts)).collect();
+
+    let mut prev = "nothing (first application on this thread)".to_string();
+    let mut applications = 0u64;
+    let mut check = |i: usize, h: OpHandle, ctx: &AnyCtx, prev: &mut String| -> CaseResult {
+        let m = members[i];
+        let got = ctx.run(h, m.fwd, &inputs[i], &m.op, "after other operators on the same thread")?;
+        applications += 1;
+        let what = describe(&m.op, m.fwd);
+        let key = format!("sibling-history@{}", m.op.sig);
+        match (&refs[i], &got) {
+            (Outcome::Done(c0, o0), Outcome::Done(c1, o1)) => {
+                if let Some(j) = first_bits_diff(o1, o0) {
+                    vfail!(
+                        key,
+                        "{what}: the result depends on what was applied on the same thread before\n immediately before: {prev}\n tuple {j} of {}\n input {}\n alone on a freshly spawned thread {}\n here {}\n (role of this operator in the case: {})",
+                        o0.len(),
+                        fmt_c4(&inputs[i][j]),
+                        fmt_c4(&o0[j]),
+                        fmt_c4(&o1[j]),
+                        m.rel
+                    );
+                }
+                vensure!(c0 == c1, key, "{what}: success count {c1} after [{prev}], {c0} alone on a freshly spawned thread");
+            }
+            (Outcome::Failed(e0), Outcome::Failed(e1)) => {
+                vensure!(e0 == e1, key, "{what}: apply fails with {e1} after [{prev}], with {e0} alone on a freshly spawned thread");
+            }
+            (Outcome::Done(..), Outcome::Failed(e)) => vfail!(key, "{what}: apply fails with {e} after [{prev}] but succeeds alone on a freshly spawned thread"),
+            (Outcome::Failed(e), Outcome::Done(..)) => vfail!(key, "{what}: apply succeeds after [{prev}] but fails with {e} alone on a freshly spawned thread"),
+        }
+        *prev = format!("'{}' ({}) [{}]", m.op.def, dirname(m.fwd), m.rel);
+        Ok(())
+    };
+
+    // 3. every ordered pair: i, then j directly after it
+    for i in 0..k {
+        for j in 0..k {
+            if i != j {
+                check(i, handles[i], &ctxs[ci(i)], &mut prev)?;
+                check(j, handles[j], &ctxs[ci(j)], &mut prev)?;
+            }
+        }
+    }
+    // 4. other things a sibling may do between two applications of the operator under test
+    for (kind, a) in &case.extra {
+        let x = 1 + pick(*a, k - 1);
+        let m = members[x];
+        match kind {
+            0 => {
+                // the sibling in the opposite direction, on its own input (whatever comes out)
+                let _ = ctxs[ci(x)].run(handles[x], !m.fwd, &inputs[x], &m.op, "history: sibling in the opposite direction")?;
+                prev = format!("'{}' ({}) [{}]", m.op.def, dirname(!m.fwd), m.rel);
+            }
+            1 => {
+                // a second instantiation of the sibling (construction may consult the same helpers)
+                if let Some(h2) = ctxs[ci(x)].inst(&m.op)? {
+                    prev = format!("instantiation of '{}'", m.op.def);
+                    check(0, handles[0], &ctxs[ci(0)], &mut prev)?;
+                    check(x, h2, &ctxs[ci(x)], &mut prev)?;
+                }
+            }
+            2 => {
+                let one = &inputs[x][..1.min(inputs[x].len())];
+                let _ = ctxs[ci(x)].run(handles[x], m.fwd, one, &m.op, "history: sibling on one tuple")?;
+                prev = format!("'{}' ({}) on its first tuple only [{}]", m.op.def, dirname(m.fwd), m.rel);
+            }
+            3 => {
+                // the operator under test on the sibling's tuples, then on its own again
+                let _ = ctxs[ci(0)].run(handles[0], members[0].fwd, &inputs[x], &members[0].op, "history: the sibling's tuples")?;
+                check(x, handles[x], &ctxs[ci(x)], &mut prev)?;
+            }
+            _ => {
+                // the sibling in a brand new context on this thread
+                if let Ok(mut c) = AnyCtx::serving(&[&m.op], case.ctx.wrapping_add(*a as u8)) {
+                    if let Some(h2) = c.inst(&m.op)? {
+                        check(x, h2, &c, &mut prev)?;
+                    }
+                }
+            }
+        }
+        check(0, handles[0], &ctxs[ci(0)], &mut prev)?;
+    }
+
+    drop(check);
+    Ok(applications)
+}
+
+fn check_siblings(case: &SibCase, rec: &mut Rec) -> CaseResult {
+    // 1. references
+    let mut members: Vec<&Member> = vec![];
+    let mut refs: Vec<Outcome> = vec![];
+    for (i, m) in case.members.iter().enumerate() {
+        rec.count("reference_threads_spawned", 1);
+        match alone_on_a_fresh_thread(m, case.ctx.wrapping_add(i as u8))? {
+            Some(o) => {
+                members.push(m);
+                refs.push(o);
+            }
+            None => {
+                rec.count("rejected_definition", 1);
+                if i == 0 {
+                    rec.class("rejected-definition");
+                    return Ok(());
+                }
+            }
+        }
+    }
+    let k = members.len();
+    if k < 2 {
+        rec.class("no-sibling-left");
+        return Ok(());
+    }
+    // 2. all of them on one (other) freshly spawned thread
+    rec.count("history_threads_spawned", 1);
+    let joined = std::thread::scope(|s| s.spawn(|| history_on_one_thread(case, &members, &refs)).join());
+    let applications = match joined {
+        Ok(r) => r?,
+        Err(_) => vfail!("harness-thread", "the history thread for '{}' died", members[0].op.def),
+    };
+    let inputs: Vec<Vec<Coor4D>> = members.iter().map(|m| c4s(&m.pts)).collect();
+
+    // ---- bookkeeping
+    let t = members[0];
+    rec.class(&format!("op:{}", if t.op.elementary { t.op.sig.clone() } else { "pipeline".into() }));
+    rec.class(if t.fwd { "dir:fwd" } else { "dir:inv" });
+    rec.class(if t.op.def.ends_with(" inv") { "under-test:inv-definition" } else { "under-test:plain-definition" });
+    rec.class(if case.shared_ctx { "ctx:one-for-all" } else { "ctx:one-per-operator" });
+    rec.class(if case.inst_rev { "instantiated:siblings-first" } else { "instantiated:under-test-first" });
+    let mut confusable = false;
+    for (i, m) in members.iter().enumerate().skip(1) {
+        rec.class(&format!("sibling:{}", m.rel));
+        rec.class(&format!("sibling-op:{}", if m.op.elementary { m.op.sig.clone() } else { "pipeline".into() }));
+        // a mix-up would be visible: same tuples, different finite results
+        if let (Outcome::Done(_, o0), Outcome::Done(_, oi)) = (&refs[0], &refs[i]) {
+            if m.fwd == t.fwd && inputs[i].len() == inputs[0].len() && first_bits_diff(&inputs[i], &inputs[0]).is_none() && o0.iter().zip(oi.iter()).any(|(p, q)| p.0.iter().chain(q.0.iter()).all(|v| v.is_finite()) && !c4_bits_eq(p, q)) {
+                confusable = true;
+            }
+        }
+    }
+    if matches!(refs[0], Outcome::Failed(_)) {
+        rec.class("outcome:apply-error");
+    }
+    rec.count("applications_compared_with_the_fresh_thread_reference", applications);
+    rec.count("tuples", inputs.iter().map(|v| v.len() as u64).sum());
+    if confusable {
+        rec.class("a-sibling-gives-other-finite-results-for-the-same-tuples");
+        let fp: Vec<u64> = inputs[0].iter().take(2).flat_map(|c| c.0.iter().map(|v| v.to_bits()).collect::<Vec<_>>()).collect();
+        let defs: Vec<&str> = members.iter().map(|m| m.op.def.as_str()).collect();
+        rec.nontrivial(&(defs, t.fwd, fp));
+    } else {
+        rec.class("trivial");
+    }
+    Ok(())
+}
+
+/// (base, sibling) pairs built systematically from the built-in table: every ordered pair within a
+/// group of equal rf and within a group of equal a (by name), and for every entry a sibling spelled
+/// "a+1,rf", one spelled "a,rf+0.001" and the entry itself spelled "a,rf"
+fn table_pairs(tab: &[Ell]) -> Vec<(Es, Es)> {
+    let mut v = vec![];
+    for (i, e) in tab.iter().enumerate() {
+        for (j, f) in tab.iter().enumerate() {
+            if i != j && (e.rf.to_bits() == f.rf.to_bits() || e.a.to_bits() == f.a.to_bits()) {
+                v.push((spelled(e, false), spelled(f, false)));
+            }
+        }
+        let b = spelled(e, false);
+        for rel in [1u8, 3, 4] {
+            let s = sibling_ell(tab, &b, rel, 0, false);
+            if s.text != b.text {
+                v.push((b.clone(), s));
+            }
+        }
+    }
+    v
+}
+
+/// representative definitions of every operator kind (and flag combination) that takes an ellipsoid,
+/// drawn from the catalogue with fixed seeds: (la, lo, step)
+fn sibling_templates() -> Vec<(i32, i32, Step)> {
+    let mut out = vec![];
+    for (r, (la, lo)) in [(55, 12), (-33, 151)].into_iter().enumerate() {
+        let strat = union(param_steps(la, lo, false));
+        let mut seen: BTreeSet<String> = BTreeSet::new();
+        for i in 0..1500u64 {
+            let s = vcore::engine::sample_one(&strat, i + 5000 * r as u64);
+            // the second region only for operators whose parameters depend on the region
+            if !ELLPS_OPS.contains(&s.name.as_str()) || (r > 0 && helper_group(&s.name) > 2) {
+                continue;
+            }
+            let (body, _) = strip_inv(&s.text);
+            // kind + flags + which optional parameters are present (+ the tide systems)
+            let mut key = s.name.clone();
+            for t in body.split_whitespace().skip(1) {
+                match t.split_once('=') {
+                    None if t == "zero-height" => {}
+                    None => key += &format!(" {t}"),
+                    Some((k, v)) if k == "from" => key += &format!(" {k}={v}"),
+                    Some((k, _)) if ["ellps_0", "lat_ts", "gamma_c", "dt"].contains(&k) => key += &format!(" {k}"),
+                    _ => {}
+                }
+            }
+            if seen.insert(key) {
+                let (mut s, inv) = (s.clone(), s.text.ends_with(" inv"));
+                if inv {
+                    s = flip(&s);
+                }
+                out.push((la, lo, s));
+            }
+        }
+    }
+    out
+}
+
+fn table_case(templates: &[(i32, i32, Step)], pairs: &[(Es, Es)], i: usize) -> SibCase {
+    let d = i % 2;
+    let p = (i / 2) % pairs.len();
+    let t = (i / 2 / pairs.len()) % templates.len();
+    let (la, lo, step) = &templates[t];
+    let (b, s) = &pairs[p];
+    let mut seed = 0xC02 ^ ((t as u64) << 8);
+    let raw: Vec<RawPt> = (0..5)
+        .map(|_| {
+            let mut r = raw_from_seed(splitmix(&mut seed));
+            r.cls %= 80; // valid, duplicate, out-of-domain
+            r
+        })
+        .collect();
+    let epochs = [F(2000.0), F(2012.5)];
+    let src = PtSrc { raw: &raw, epochs: &epochs, span: 4.0, hk: false };
+    let fwd = d == 0;
+    let under_test = set_ellps(step, b);
+    let sibling = set_ellps(step, s);
+    let rel = format!("same-def/{}", ell_relation(b, s));
+    let mut members = vec![member_of(vec![under_test.clone()], *la, *lo, fwd, &src, "under-test".into()), member_of(vec![sibling.clone()], *la, *lo, fwd, &src, rel.clone())];
+    if !fwd && under_test.invertible && !under_test.neutral {
+        members.push(member_of(vec![under_test, flip(&sibling)], *la, *lo, true, &src, format!("pipeline-with/{rel}")));
+    }
+    SibCase { ctx: (i % 3) as u8, shared_ctx: (i / 3) % 2 == 0, inst_rev: (i / 6) % 2 == 0, members, extra: vec![(1, 0), (4, 0)] }
+}
+
 // ---- main -------------------------------------------------------------------------------------
 
 /// Is the helmert finding registered as "known" (not yet repaired)? Then its class is excluded
@@ -2094,6 +2778,7 @@ fn main() {
     run.assume("containers: a pipeline is compared through a lower-dimensional container only if none of its steps can write (or NaN-stomp) a dimension the container does not carry; Coor32 containers only for single operators, comparing with the Vec<Coor4D> result rounded to f32 (exact: same f64 computation, then the same rounding)");
     run.assume("adapters (T, t) and (T, h, t) supply the fixed values on every read, so only the dimensions below the supplied ones are compared");
     run.assume("grid operators use generated Gravsoft grids and generated NTv2 files with nested sub-grids (plus the shipped 5458_with_subgrid.gsb), all served by the harness context GridCtx, which shares one decoded grid object between all handles of a context as Plain does");
+    run.assume("sibling sections: the reference for 'depends only on the operator and the tuple' is the operator applied alone, in a context of its own, on a freshly spawned thread; the history under test runs on one other freshly spawned thread per case, so the verdict is a function of the case alone; an error returned by apply is compared as an outcome (same error alone and after the history), a panic is reported as in the other sections");
     if hk {
         run.assume("the registered helmert finding (parameters carried over between tuples of differing epochs) is excluded by construction outside section helmert-epochs: bare dynamic helmert operators get sets with one common epoch, dynamic helmert steps inside pipelines get a pinned t_obs");
     }
@@ -2175,6 +2860,26 @@ fn main() {
         check_containers,
     );
 
+    let n = run.scale(4_000, 150_000);
+    run.section(
+        "sibling-history",
+        "families of 2..5 confusable operators: the operator under test (whole catalogue of operators with an ellipsoid or numeric parameters, plain or `inv` definition, Fwd or Inv, ellipsoid drawn from the built-in table by name or as a,rf) + 1..3 siblings (same definition on an ellipsoid with the same rf and another a / the same a and another rf / the same ellipsoid spelled differently / an unrelated one, taken from the table groups or spelled a,rf; one numeric parameter changed; `inv` toggled; an identical twin; another operator kind, preferably one sharing helper code, on the same or a related ellipsoid) + optionally a pipeline of the operator and the inverted sibling; reference = each member applied alone in its own context on a freshly spawned thread; on the worker thread all are instantiated (either order; one context for all or one each) and applied in every ordered pair, then after sibling applications in the opposite direction, on one tuple, re-instantiations and fresh contexts; every application is compared bit for bit (and in its success count / error) with the member's reference; non-trivial = some sibling gives different finite results for the same tuples in the same direction",
+        n,
+        move || sib_strategy(hk),
+        check_siblings,
+    );
+
+    {
+        let tab = ell_table();
+        let pairs = table_pairs(&tab);
+        let templates = sibling_templates();
+        run.note("sibling_table_pairs", serde_json::json!(pairs.len()));
+        run.note("sibling_templates", serde_json::json!(templates.iter().map(|t| t.2.text.clone()).collect::<Vec<_>>()));
+        let total = 2 * pairs.len() * templates.len();
+        let rule = "every representative definition of the operators that take an ellipsoid (one per kind and flag combination, two regions, drawn from the catalogue with fixed seeds) x every ordered pair of built-in ellipsoids sharing rf or sharing a, plus for every built-in ellipsoid the siblings a+1,rf / a,rf+0.001 / the same one spelled a,rf x Fwd / Inv (Inv adds the pipeline 'op on E1 | op on E2 inv'); same oracle as sibling-history";
+        run.enumerate("sibling-ellipsoid-table", rule, total, |i| table_case(&templates, &pairs, i), check_siblings);
+    }
+
     let (nbig, lo, hi) = if run.is_thorough() { (run.scale(0, 96), 40_000u32, 100_000u32) } else { (run.scale(48, 0), 2_000u32, 6_000u32) };
     run.track_inflight(true);
     run.section(
@@ -2185,5 +2890,5 @@ fn main() {
         move |b: &BigCase, rec: &mut Rec| check(&big_to_case(b, hk), rec, false),
     );
 
-    run.finish("generated operators/pipelines x heterogeneous coordinate sets; metamorphic relations (singleton, permutation, chunking, repetition after history, fresh context, containers) compared on bit patterns; non-trivial cases counted per section rule");
+    run.finish("generated operators/pipelines x heterogeneous coordinate sets; metamorphic relations (singleton, permutation, chunking, repetition after history, fresh context, containers) compared on bit patterns; families of confusable operators applied in every order of pairs on one thread compared bit for bit with each operator alone on a freshly spawned thread; non-trivial cases counted per section rule");
 }
